@@ -321,6 +321,37 @@ func c18Bounded(e *Env) {
 				return true
 			})
 			r.Check(derived != nil, rule, fname+":deadline-context", w.Pos(fi.Decl.Pos()), "Shutdown derives its context with WithTimeout(ctx, ExitWaitTimeout)", "no `ctx, cancel := context.WithTimeout(ctx, opt.ExitWaitTimeout)` found")
+			// the Done() a blocking select waits on is the deadline context's, not the caller's
+			if derived != nil {
+				k := 0
+				ast.Inspect(fi.Decl.Body, func(n ast.Node) bool {
+					sel, ok := n.(*ast.SelectStmt)
+					if !ok {
+						return true
+					}
+					k++
+					good := false
+					for _, c := range sel.Body.List {
+						cc := c.(*ast.CommClause)
+						if cc.Comm == nil {
+							good = true // has default: does not block
+							continue
+						}
+						ast.Inspect(cc.Comm, func(m ast.Node) bool {
+							if u, ok := m.(*ast.UnaryExpr); ok && u.Op == token.ARROW {
+								if c2, ok := unparen(u.X).(*ast.CallExpr); ok && isDone(c2) {
+									if se, ok := c2.Fun.(*ast.SelectorExpr); ok && usedVar(info, se.X) == derived {
+										good = true
+									}
+								}
+							}
+							return true
+						})
+					}
+					r.Check(good, rule, fmt.Sprintf("%s:select#%d:deadline-ctx", fname, k), w.Pos(sel.Pos()), "the blocking select waits on the Done() of the ExitWaitTimeout context", "the select's Done() case belongs to another context (the caller's): with context.Background() the wait for the hooks is unbounded")
+					return true
+				})
+			}
 			if derived != nil {
 				okT, okH := false, false
 				ast.Inspect(fi.Decl.Body, func(n ast.Node) bool {
@@ -378,7 +409,7 @@ func c18Bounded(e *Env) {
 
 func c18Lock(e *Env) {
 	tbl := []guard{{Rel: "pkg/network/standard", Typ: "transport", Field: "ln", Lock: "mu"}}
-	if e.W.Pkg("pkg/network/netpoll") != nil {
+	if !strings.Contains(e.Config, "windows") { // transport.go is //go:build !windows
 		tbl = append(tbl, guard{Rel: "pkg/network/netpoll", Typ: "transporter", Field: "ln", Lock: "mu"}, guard{Rel: "pkg/network/netpoll", Typ: "transporter", Field: "el", Lock: "mu"})
 	}
 	guardedBy(e, "C18.lock", tbl, nil)
